@@ -52,11 +52,35 @@ def gen_trees(rng):
     return s.normalize()
 
 
+def long_path_cases(eng, res, fields, what, rng):
+    """A path longer than 65535 bytes (17 nested directories with 4000-byte names) inside a sub-tree that two commits share
+    under prefixes of different length, the longer prefix belonging to the commit read LATER: the sub-tree's figures are then
+    taken from what was kept of it, and nothing may have been lost on the way."""
+    n = 0
+    for newer, older in ((b"d", b"a-rather-longer-name"), (b"a-rather-longer-name", b"d")):
+        s = S.Scenario()
+        b = s.add({"kind": "blob", "data": b"x"})
+        t = s.add({"kind": "tree", "entries": [(0o100644, b"f", b)]})
+        for i in range(17):
+            t = s.add({"kind": "tree", "entries": [(0o40000, bytes([97 + i]) * 4000, t)]})
+        top_new = s.add({"kind": "tree", "entries": [(0o40000, newer, t)]})
+        top_old = s.add({"kind": "tree", "entries": [(0o40000, older, t)]})
+        c_old = s.add({"kind": "commit", "tree": top_old, "parents": [], "date": 1500000000})
+        c_new = s.add({"kind": "commit", "tree": top_new, "parents": [c_old], "date": 1500000100})
+        s.refs.append((b"refs/heads/main", c_new))
+        s.compute()
+        for style in ("gitlike", "referent_first"):
+            SP.one_case(eng, res, s, [], [], [], s.enum_random([c_new], rng, style=style), fields,
+                        "%s: a 68 KB path below a sub-tree shared as %r (newer commit) and %r (older) (%s)" % (what, newer.decode(), older.decode(), style))
+            n += 1
+    res.coverage_extra["long_shared_path_cases"] = n
+
+
 def run(ctx):
     quick = ctx["tier"] == "quick"
     return SP.run_general(
         ctx, SC.FIELD_GROUPS["checkout"], "checkout", n_fake=110 if quick else 2000, n_real=35 if quick else 500,
-        gen=gen_trees,
+        gen=gen_trees, extra_cases=long_path_cases,
         rule=("layered tree DAGs (2-8 levels) with arbitrary sharing, the same subtree twice in one tree, files/exec/symlinks/"
               "gitlinks, empty trees, names of arbitrary non-NUL non-'/' bytes up to 255 long, trees reachable from commits, "
               "annotated tags and lightweight refs; the seven max_path_*/max_expanded_* fields vs the model and vs the "
